@@ -396,8 +396,19 @@ fn check(s: &Setup, st: &mut Stats) -> Result<(), Fail> {
     })
 }
 
+/// One generated case from its choice tape (also the entry point of the `picker` fuzz target).
+pub fn check_tape(t: &[u16], st: &mut Stats) -> Result<(), Fail> {
+    match build_from_tape(t, st) {
+        Some(s) => check(&s, st),
+        None => {
+            st.discard();
+            Ok(())
+        }
+    }
+}
+
 pub fn run(run: &mut Run) -> &'static str {
-    let cases = run.tier.pick(2_000_000, 40_000_000);
+    let cases = run.tier.pick(5_000_000, 40_000_000);
     let strat = tape(8..160).prop_map(Case::Tape);
     run.proptest_part("streams", RULE, strat, cases, |c: &Case, st: &mut Stats| {
         let setup = match c {
@@ -412,5 +423,12 @@ pub fn run(run: &mut Run) -> &'static str {
             }
         }
     });
+    let crashes: Vec<Case> = super::fuzzglue::campaign(run, "picker", 600_000, 12, 320).into_iter().map(Case::Tape).collect();
+    if !crashes.is_empty() {
+        run.exhaustive_part("fuzz_crashes", RULE, crashes, |c: &Case, st: &mut Stats| match c {
+            Case::Tape(t) => check_tape(t, st),
+            _ => Ok(()),
+        });
+    }
     RULE
 }
